@@ -841,7 +841,10 @@ func (s *Server) doModify(cid string, ops []*spb.AFTOperation, resCh chan *spb.M
 		res, err := modifyEntry(s.masterRIB, ni, o, cs.params.FIBAck, elec)
 		switch {
 		case err != nil:
+			// The error terminates the RPC, so the remaining operations of this
+			// request must not be applied: their results could never be sent.
 			errCh <- err
+			return
 		default:
 			resCh <- res
 		}
